@@ -313,3 +313,29 @@ func VP_C11_wire_large() {
 	}
 	vp.Cover("end")
 }
+
+// a ReadFrom that failed (stream cut at any long boundary or inside a long)
+// leaves a storage that still reads the next encoding correctly.
+func VP_C11_wire_after_failure() {
+	bits := []int{1, 5, 15, 32}[vp.Choice(4)]
+	vpl := 64 / bits
+	n := 2*vpl + 1
+	size := 3
+	mkraw := func() []uint64 { return []uint64{vp.Uint64(), vp.Uint64(), vp.Uint64()} }
+	a, b := NewBitStorage(bits, n, mkraw()), NewBitStorage(bits, n, mkraw())
+	var wa, wb bytes.Buffer
+	_, _ = a.WriteTo(&wa)
+	_, _ = b.WriteTo(&wb)
+	dst := NewBitStorage(bits, n, nil)
+	cut := []int{0, 1, 5, 9, 17, wa.Len() - 1}[vp.Choice(6)]
+	_, err := dst.ReadFrom(bytes.NewReader(wa.Bytes()[:cut]))
+	vp.Assert(err != nil, "a truncated encoding is an error")
+	r := bytes.NewReader(append(append([]byte{}, wb.Bytes()...), 0x5a))
+	rn, err := dst.ReadFrom(r)
+	vp.Assert(err == nil && rn == int64(wb.Len()) && r.Len() == 1, "ReadFrom consumes exactly the encoding")
+	vp.Assert(dst.Fix(bits) == nil && len(dst.Raw()) == size, "Fix accepts")
+	for k := 0; k < size; k++ {
+		vp.Assert(dst.Raw()[k] == b.Raw()[k], "raw longs survive the wire")
+	}
+	vp.Cover("end")
+}
